@@ -51,7 +51,7 @@ type vfSrvState struct {
 }
 
 func vfSrvMake(scn string) (func(), func(*vsched.Exec) (string, *vsched.Violation)) {
-	cfg := map[string]int{"w": 1, "q": 1, "r": 2, "stop": 1, "late": 1, "y": 1, "c": 0}
+	cfg := map[string]int{"w": 1, "q": 1, "r": 2, "stop": 1, "late": 1, "y": 1, "c": 0, "s": 1, "on": 0}
 	for _, kv := range strings.Split(scn, ",") {
 		p := strings.SplitN(kv, "=", 2)
 		if len(p) == 2 {
@@ -66,7 +66,18 @@ func vfSrvMake(scn string) (func(), func(*vsched.Exec) (string, *vsched.Violatio
 		st.conn = conn
 		proc := &vfCountProc{st: st, yields: cfg["y"]}
 		pf := NewFProtocolFactory(thrift.NewTBinaryProtocolFactoryConf(nil))
-		srv := NewFNatsServerBuilder(conn, proc, pf, []string{"svc"}).
+		// s subjects; on=0 sends every request to the first, on=1 to the last, on=2 alternates
+		subjects := []string{"svc", "svc2", "svc3"}[:cfg["s"]]
+		subjectOf := func(id int) string {
+			switch cfg["on"] {
+			case 0:
+				return subjects[0]
+			case 1:
+				return subjects[len(subjects)-1]
+			}
+			return subjects[id%len(subjects)]
+		}
+		srv := NewFNatsServerBuilder(conn, proc, pf, subjects).
 			WithWorkerCount(uint(cfg["w"])).WithQueueLength(uint(cfg["q"])).WithQueueGroup("g").Build()
 		vsched.GoNamed("serve", true, func() {
 			st.serveErr = srv.Serve()
@@ -80,13 +91,14 @@ func vfSrvMake(scn string) (func(), func(*vsched.Exec) (string, *vsched.Violatio
 			after := st.stopReturned
 			n0 := len(conn.Log)
 			// evaluated atomically with the routing step inside the broker
+			target := subjectOf(id)
 			conn.OnPublish = func(subj, reply string, data []byte) error {
-				if subj == "svc" {
+				if subj == target {
 					before = !st.stopCalled
 				}
 				return nil
 			}
-			conn.PublishRequest("svc", fmt.Sprintf("reply.%d", id), frame)
+			conn.PublishRequest(target, fmt.Sprintf("reply.%d", id), frame)
 			routed := true
 			// a 503 status message right after the request means nobody was subscribed
 			for _, m := range conn.Log[n0:] {
@@ -103,7 +115,7 @@ func vfSrvMake(scn string) (func(), func(*vsched.Exec) (string, *vsched.Violatio
 			vsched.Note(fmt.Sprintf("published %d routed=%v beforeStop=%v afterStop=%v", id, routed, before, after))
 		}
 		vsched.GoNamed("driver", true, func() {
-			conn.WaitSubsEver(1)
+			conn.WaitSubsEver(cfg["s"])
 			for i := 1; i <= cfg["stop"]; i++ {
 				pub(i)
 			}
@@ -119,7 +131,7 @@ func vfSrvMake(scn string) (func(), func(*vsched.Exec) (string, *vsched.Violatio
 		if cfg["c"] > 0 {
 			// a second publisher racing with Stop
 			vsched.GoNamed("driver2", true, func() {
-				conn.WaitSubsEver(1)
+				conn.WaitSubsEver(cfg["s"])
 				for i := 0; i < cfg["c"]; i++ {
 					pub(100 + i)
 				}
@@ -228,6 +240,16 @@ func init() {
 						if w == 1 || tier == "thorough" {
 							out = append(out, fmt.Sprintf("w=%d,q=%d,r=%d,stop=1,late=1,y=1,c=1", w, q, r))
 						}
+						// a server listening on two subjects, the backlog at Stop time on the first,
+						// the last, or both
+						if w == 1 && (q == 0 || (q == 1 && tier == "thorough")) {
+							for on := 0; on <= 2; on++ {
+								if on == 2 && tier != "thorough" {
+									continue
+								}
+								out = append(out, fmt.Sprintf("w=%d,q=%d,r=%d,stop=%d,late=0,y=1,s=2,on=%d,c=0", w, q, r, r, on))
+							}
+						}
 					}
 				}
 			}
@@ -235,7 +257,7 @@ func init() {
 		},
 		Make: vfSrvMake,
 		Bound: func(tier, scn string) (int, bool) {
-			heavy := !strings.HasSuffix(scn, "c=0") || strings.HasPrefix(scn, "w=2")
+			heavy := !strings.HasSuffix(scn, "c=0") || strings.HasPrefix(scn, "w=2") || strings.Contains(scn, "s=2")
 			switch {
 			case tier == "thorough" && !strings.HasSuffix(scn, "c=0") && strings.HasPrefix(scn, "w=2"):
 				return 1, true
